@@ -4,7 +4,7 @@
    usage: tools/seedrun.py [name ...]     (never leaves /repo modified; refuses to start when /repo is dirty)"""
 import json, os, subprocess, sys
 VERIF = os.path.dirname(os.path.dirname(os.path.abspath(__file__)))
-REPO = '/repo'
+REPO = os.environ.get('KAPTURE_REPO', '/repo')     # a snapshot of /repo when run under `vp run --with-repo` (tools/seedmatrix.sh)
 
 
 def sh(cmd, **kw):
@@ -13,7 +13,7 @@ def sh(cmd, **kw):
 
 def main():
     names = sys.argv[1:] or sorted(os.listdir(os.path.join(VERIF, 'seeded')))
-    if sh(f'git -C {REPO} status --porcelain').stdout.strip():
+    if REPO == '/repo' and sh(f'git -C {REPO} status --porcelain').stdout.strip():
         sys.exit('refusing: /repo working tree is not clean')
     rows = []
     for name in names:
@@ -23,7 +23,7 @@ def main():
             continue
         meta = json.load(open(meta_p))
         pids = meta.get('checks') or [meta['property']]
-        a = sh(f'git -C {REPO} apply {d}/patch.diff')
+        a = sh(f'cd {REPO} && git apply {d}/patch.diff')
         if a.returncode:
             rows.append((name, 'patch does not apply: ' + a.stderr.strip()[:200]))
             continue
@@ -34,7 +34,7 @@ def main():
                 lines = [l for l in r.stdout.splitlines() if l.startswith('VIOLATION') or l.startswith(f'[{pid}]')]
                 results[pid] = {'exit': r.returncode, 'lines': [l[:300] for l in lines][:4]}
         finally:
-            sh(f'git -C {REPO} checkout -- .')
+            sh(f'cd {REPO} && git apply -R {d}/patch.diff')
         meta['check_result'] = results
         meta['caught'] = any(v['exit'] == 1 for v in results.values())
         json.dump(meta, open(meta_p, 'w'), indent=1)
